@@ -24,6 +24,8 @@ Notation bstate := (bstate M n).
 Notation kstep := (@kf_step M n nw).
 Notation krun := (@kf_run M n nw).
 Notation step_spec := (@step_spec F flog flog2pi n nw).
+Notation all_ok := (@all_ok F flog flog2pi n nw).
+Notation all_unit := (@all_unit F flog flog2pi n nw).
 Implicit Types (p : period) (a : 'cV[F]_n) (Q : 'M[F]_n) (st : bstate).
 
 Definition r_of st : 'cV[F]_n := if st is Some (_, r, _) then r else 0.
@@ -116,13 +118,6 @@ Qed.
 Notation osb := (@one_step_back M n nw).
 Notation sback := (@smooth_back M n nw).
 
-Fixpoint all_ok (ps : seq period) : Prop :=
-  if ps is p :: ps' then ok_period p /\ all_ok ps' else True.
-
-(* every period with observations has an invertible prediction-error covariance *)
-Fixpoint all_unit (fs : seq fper) : Prop :=
-  if fs is x :: fs' then f_F (ff x) \in unitmx /\ all_unit fs' else True.
-
 (* the transition equation of the period of [s], from the state [a_prev] of the previous period *)
 Definition trans_eq (a_prev : 'cV[F]_n) (s : sper) : Prop :=
   let p := fp (sx s) in
@@ -138,10 +133,6 @@ Definition meas_eq (s : sper) : Prop :=
 
 Fixpoint all_meas (l : seq sper) : Prop :=
   if l is s :: l' then meas_eq s /\ all_meas l' else True.
-
-Lemma krun_cons a Q p ps :
-  krun a Q (p :: ps) = mkFper p (kstep a Q p) :: krun (f_a1 (kstep a Q p)) (f_Q1 (kstep a Q p)) ps.
-Proof. by []. Qed.
 
 Lemma sback_cons x fs :
   sback (x :: fs) = (mkSper x (osb x (sback fs).2).1 :: (sback fs).1, (osb x (sback fs).2).2).
